@@ -1304,6 +1304,11 @@ Error CodeHolder::relocate_to_base(uint64_t base_address, RelocationSummary* sum
     }
   }
 
+  // The address table has been written directly to its buffer - make the content visible to copy functions.
+  if (address_table_section) {
+    address_table_section->_buffer._size = address_table_entry_size * address_size;
+  }
+
   // Fixup the virtual size of the address table if it's the last section.
   if (_sections_by_order.last() == address_table_section) {
     ASMJIT_ASSERT(address_table_section != nullptr);
@@ -1311,7 +1316,6 @@ Error CodeHolder::relocate_to_base(uint64_t base_address, RelocationSummary* sum
     size_t reserved_size = size_t(address_table_section->_virtual_size);
     size_t address_table_size = address_table_entry_size * address_size;
 
-    address_table_section->_buffer._size = address_table_size;
     address_table_section->_virtual_size = address_table_size;
 
     ASMJIT_ASSERT(reserved_size >= address_table_size);
